@@ -149,7 +149,17 @@ func taskBody(env *taskEnv, t *TaskScn) func() string {
 			if len(env.shared) > 0 {
 				st.root = env.shared[t.Walk.Block%len(env.shared)].AsNode()
 			}
-			commonmark.Walk(st.root, env.sharedWO)
+			func() {
+				defer func() {
+					if r := recover(); r != nil {
+						if _, ok := r.(walkCallbackPanic); !ok {
+							panic(r)
+						}
+						st.sb.WriteString("UNWOUND")
+					}
+				}()
+				commonmark.Walk(st.root, env.sharedWO)
+			}()
 			return st.sb.String()
 		}
 	case "stream-shared-ip":
